@@ -4,6 +4,7 @@ package headers
 
 import (
 	"context"
+	"sort"
 
 	"github.com/pkg/errors"
 )
@@ -34,4 +35,15 @@ func (repo *Repository) LoadWithPruneDepth(ctx context.Context, depth int) error
 	defer repo.Unlock()
 
 	return repo.load(ctx, depth)
+}
+
+// SetSplitsForSimulation replaces the configured chain splits, so that heights below, between and
+// above split heights are reachable by short simulated chains. It adds no logic of its own.
+func (repo *Repository) SetSplitsForSimulation(splits Splits) {
+	repo.Lock()
+	defer repo.Unlock()
+
+	repo.splits = make(Splits, len(splits))
+	copy(repo.splits, splits)
+	sort.Sort(repo.splits)
 }
